@@ -9,7 +9,7 @@
      OrderMinimal   order / revision trees violate nothing but order / revision rules
      ExtAnywhere    a prefixed extension statement never changes a verdict                *)
 EXTENDS YangStmtTpl
-CONSTANTS MaxCount
+CONSTANTS MaxCount, Thorough
 VARIABLE st
 ParentSeqMC == SetToSeq(ParentIds)
 KindSeqMC == SetToSeq(JudgedKinds)
@@ -18,12 +18,18 @@ KindSeqMC == SetToSeq(JudgedKinds)
 MCInit == st = <<"init", "", "", 0>>
 PickFam == /\ st[1] = "init"
            /\ \/ \E P \in ParentIds : st' = <<"P", P, "", 0>>
-              \/ \E k \in JudgedKinds : \E s \in SitesOf(k) : st' = <<"K", k, s, 0>>
-              \/ \E r \in {"module", "submodule"} : st' = <<"O", r, "", 0>>
+              \/ \E k \in JudgedKinds : \E s \in SitesFor(k, Thorough) : st' = <<"K", k, s, 0>>
+              \/ \E r \in {"module", "submodule"}, part \in {"base", "rev", "ext"}, ch \in 0..7 : st' = <<"O", r, part, ch>>
+              \/ \E k \in JudgedKinds : st' = <<"W", k, OneSite(k), 0>>
 PickCard == st[1] = "P" /\ \E C \in ExtOrKw : \E n \in CardCounts(st[2], C, MaxCount) : st' = <<"card", st[2], C, n>>
 PickArg == st[1] = "K" /\ \E a \in Cands(st[2]) : st' = <<"arg", st[2], st[3], a>>
-PickOrder == st[1] = "O" /\ \E t \in OrderTrees(st[2]) \cup RevTrees(st[2]) : st' = <<"order", st[2], t, 0>>
-MCNext == PickFam \/ PickCard \/ PickArg \/ PickOrder
+OrderSet(root, part) == IF part = "base" THEN OrderTrees(root) \cup RevTrees(root)
+                        ELSE IF part = "rev" THEN RevInterleaved(root) ELSE OrderInterleaved(root, Thorough)
+\* (the worker that expands a state also checks its successors: 8 chunks per set keep all workers busy)
+PickOrder == st[1] = "O" /\ LET q == SetToSeq(OrderSet(st[2], st[3])) IN
+                            \E i \in {j \in 1..Len(q) : j % 8 = st[4]} : st' = <<"order", st[2], q[i], 0>>
+PickWs == st[1] = "W" /\ \E a \in WsCands(st[2]) : st' = <<"arg", st[2], st[3], a>>
+MCNext == PickFam \/ PickCard \/ PickArg \/ PickOrder \/ PickWs
 
 TablesOK == TableWellFormed /\ EveryKeywordPlaced
 
@@ -62,6 +68,15 @@ ExtAnywhereB ==
     LET X == PStmt(st[2], st[3], 1)
         Y == St(X.kw, X.arg, <<Lf(ExtKw, "x")>> \o X.subs \o <<Lf(ExtKw, "y")>>) IN
     Expect(Complete(Embed(Y))).verdict = Expect(Complete(Embed(X))).verdict
+\* extension statements in the module's statement sequence never change the verdict nor the offending keywords
+InterleaveNeutralB ==
+  st[1] = "order" =>
+    LET a == Expect(st[3])  b == Expect(StripExts(st[3])) IN
+    a.verdict = b.verdict /\ {<<f.kind, f.kw>> : f \in a.bad} = {<<f.kind, f.kw>> : f \in b.bad}
+\* odd white space is never accepted by a judged predicate
+OddWsRejectedB ==
+  st[1] = "arg" /\ (\E i \in 1..Len(st[4]) : SubSeq(st[4], i, i) = "~" /\ i < Len(st[4]) /\ SubSeq(st[4], i, i + 1) \in OddWs)
+    => ArgVerdict(st[2], st[4]) # "valid"
 \* the compact prescription for large counts (BigExpand / BigExpect) is what Valid says of the really expanded tree
 BigConsistentB ==
   st[1] = "card" /\ st[4] = 1 /\ st[3] \in BigKw =>
@@ -79,5 +94,7 @@ CardMinimal == CardMinimalB \/ (PrintT(<<"MCFAIL", "CardMinimal", st>>) /\ FALSE
 ArgMinimal == ArgMinimalB \/ (PrintT(<<"MCFAIL", "ArgMinimal", st>>) /\ FALSE)
 OrderMinimal == OrderMinimalB \/ (PrintT(<<"MCFAIL", "OrderMinimal", st>>) /\ FALSE)
 ExtAnywhere == ExtAnywhereB \/ (PrintT(<<"MCFAIL", "ExtAnywhere", st>>) /\ FALSE)
+InterleaveNeutral == InterleaveNeutralB \/ (PrintT(<<"MCFAIL", "InterleaveNeutral", st>>) /\ FALSE)
+OddWsRejected == OddWsRejectedB \/ (PrintT(<<"MCFAIL", "OddWsRejected", st>>) /\ FALSE)
 BigConsistent == BigConsistentB \/ (PrintT(<<"MCFAIL", "BigConsistent", st>>) /\ FALSE)
 =============================================================================
